@@ -69,6 +69,7 @@ fn msg_case(g: &mut Gen, ctx: &mut Ctx) -> CaseResult {
     let item = gen_msg(g, kind, &mut Faults::none(), depth);
     let aad = g.small_bytes();
     let mut views = vec![];
+    let mut expected_views = vec![];
     let mut nested_positions = 0usize;
     for style in 0..2 {
         let (bytes, enc) = styled(&item, g, StyleOpts::ALL);
@@ -92,6 +93,9 @@ fn msg_case(g: &mut Gen, ctx: &mut Ctx) -> CaseResult {
         let mut v = got.clone();
         strip_wire_msg(&mut v);
         views.push(v);
+        let mut e = expect.clone();
+        strip_wire_msg(&mut e);
+        expected_views.push(e);
         if style == 1 {
             continue;
         }
@@ -238,7 +242,7 @@ fn msg_case(g: &mut Gen, ctx: &mut Ctx) -> CaseResult {
         }
     }
     // (4) the parsed view is the same for every encoding of the same content
-    if views.len() == 2 {
+    if views.len() == 2 && expected_views[0] == expected_views[1] {
         ensure!(views[0] == views[1], "{}: two encodings of the same content give different parsed views\n  item: {}", kind.name(), diag(&item));
     }
     Ok(())
